@@ -529,6 +529,10 @@ class AlignmentRotation(HomogFamilyAlignment, Rotation):
         Rotation.__init__(
             self, optimal_rotation_matrix(source, target, allow_mirror=allow_mirror)
         )
+        # Rotation.__init__ goes through our set_rotation_matrix, which
+        # re-syncs the target from the state (the aligned source). Keep the
+        # target that was asked for.
+        self._target = target
         self.allow_mirror = allow_mirror
 
     def set_rotation_matrix(self, value, skip_checks=False):
